@@ -9,8 +9,8 @@ from common import Ctx, MachineryError, pmap
 
 JUDGE = ["C20_Zero", "C20_NonNegative", "C20_Monotone", "C20_ByName", "C20_Exact64", "C20_Mono", "C20_Scale", "C20_ScaleModuloQuantisation", "C20_Units", "C20_Reject"]
 BASE = dict(Fonts=set(range(1, 11)), SizeIdx=set(range(1, len(strwidth20.SIZES) + 1)), Classes={"ascii", "latin1", "greek"}, Units={"in", "mm", "px"},
-            DpiIdx=set(range(1, 7)), BadKinds={"font_number", "font_name", "unit"}, Modes={"mixed"})
-ALLCLASSES = {"ascii", "latin1", "greek", "digit", "upper", "lower", "space", "punct", "rep"}
+            DpiIdx=set(range(1, 7)), BadKinds={"font_number", "font_name", "unit"}, Modes={"mixed"}, MinHomog=1)
+ALLCLASSES = {"ascii", "latin1", "greek", "digit", "upper", "lower", "space", "punct", "rep", "kern"}
 PLAN = {"quick": dict(exh_len=1, sim_len=14, sim_num=2000, homog_num=2500), "thorough": dict(exh_len=2, sim_len=14, sim_num=100000, homog_num=60000)}
 
 
@@ -25,8 +25,14 @@ def _judge(ctx, work, recs):
         for b in verdicts.get(r["id"], []):
             by.setdefault(b["cl"], []).append(b["at"])
         for cl, ats in by.items():
-            if cl == "C20_Scale" and "C20_ScaleModuloQuantisation" not in by and min(r["c"]["w1"], r["c"]["w2"]) < 128:
-                f = next((f for f in ctx.known if f.get("applies") == "sub_2px_width"), None)
+            if cl == "C20_Scale" and "C20_ScaleModuloQuantisation" not in by:
+                # the deviation is within what the 1/64 px rounding of every glyph advance explains (TLC clause
+                # C20_ScaleModuloQuantisation holds): a recorded finding if the text is narrower than 2 px, or if its glyphs
+                # advance less than 2 px each
+                wmin = min(r["c"]["w1"], r["c"]["w2"])
+                nglyph = max(1, len(r["ev"]) and r["ev"][-1]["n"])
+                which = "sub_2px_width" if wmin < 128 else ("sub_2px_per_glyph" if wmin < 128 * nglyph else None)
+                f = next((f for f in ctx.known if f.get("applies") == which), None) if which else None
                 if f:
                     ctx.known_finding(f["id"], f["text"])
                     continue
@@ -59,10 +65,10 @@ def run(pid, tier, seed, replay=None):
         got = family.generate(ctx, work, "StrWidth", g1, "short")
         ctx.extra["exhaustive_histories"] = len(got)
         g2 = dict(BASE); g2["MaxLen"] = plan["sim_len"]
-        got += family.generate(ctx, work, "StrWidth", g2, "long", simulate_num=plan["sim_num"], depth=plan["sim_len"] + 6, seed=seed)
+        got += family.generate(ctx, work, "StrWidth", g2, "long", simulate_num=plan["sim_num"], depth=plan["sim_len"] + 8, seed=seed)
         # homogeneous texts (all digits / capitals / blanks / one repeated character ...) closed by one other character
-        g3 = dict(BASE); g3.update(MaxLen=plan["sim_len"], Classes=ALLCLASSES, Modes={"homog", "mixed"})
-        hom = family.generate(ctx, work, "StrWidth", g3, "homog", simulate_num=plan["homog_num"], depth=plan["sim_len"] + 8, seed=seed + 1)
+        g3 = dict(BASE); g3.update(MaxLen=plan["sim_len"], Classes=ALLCLASSES, Modes={"homog", "mixed"}, MinHomog=4)
+        hom = family.generate(ctx, work, "StrWidth", g3, "homog", simulate_num=plan["homog_num"], depth=plan["sim_len"] + 10, seed=seed + 1)
         ctx.extra["homogeneous_histories"] = sum(1 for x in hom if x.get("mode") == "homog")
         got += hom
         items = []
